@@ -49,4 +49,13 @@ def effectiveDoc (params : Option PV) (data : PV) : Outcome PV :=
   | some p => p.merge data
   | none => .ok data
 
+/-- what `validate -i P1 .. -i Pn -d D` evaluates the rules against: the parameter files folded left to right,
+    then the data file's keys (validate.rs: the fold over `input_params`, then `merge` per data file) -/
+def mergedDocument (params : List PV) (data : PV) : Outcome PV :=
+  match mergeParams params with
+  | .ok p => effectiveDoc p data
+  | .err e => .err e
+  | .panic s => .panic s
+  | .outOfFuel => .outOfFuel
+
 end Guard
